@@ -6,6 +6,7 @@ package client
 import (
 	"context"
 	"fmt"
+	"io"
 	"regexp"
 	"strings"
 	"testing"
@@ -123,9 +124,57 @@ func runC02(rt *rapid.T, st *stats.Collector) {
 		q.ExternalTable = rapid.SampledFrom([]string{"", "_ext", "tmp table"}).Draw(rt, "ext-table")
 	}
 	withResult := false
+	// Streamed input: the blocks the server must receive, in order (nil = a single static block).
+	var rounds [][]inputCol
+	streamed := false
 	if rapid.Bool().Draw(rt, "input") {
 		input = drawInput(rt, "in", 3, 1)
 		q.Input = protoInput(input)
+		if streamed = rapid.IntRange(0, 2).Draw(rt, "streamed-input") == 0; streamed {
+			// OnInput refills the same column objects: zero or more rounds returning nil, then
+			// io.EOF either with a last batch of rows or with none. Initial rows may be absent.
+			withRows := func(n int) []inputCol {
+				out := make([]inputCol, len(input))
+				for i, c := range input {
+					out[i] = c
+					out[i].rows = gen.DrawRows(rt, c.kind, n)
+				}
+				return out
+			}
+			if rapid.Bool().Draw(rt, "initial-rows") {
+				rounds = append(rounds, input)
+			} else {
+				for _, c := range input {
+					c.col.Column().Reset()
+				}
+			}
+			var fills [][]inputCol // what each callback call leaves in the columns; nil = nothing
+			for i, n := 0, rapid.IntRange(0, 2).Draw(rt, "input-rounds"); i < n; i++ {
+				fills = append(fills, withRows(rapid.IntRange(1, 4).Draw(rt, "round-rows")))
+			}
+			rounds = append(rounds, fills...)
+			if rapid.Bool().Draw(rt, "rows-with-eof") {
+				fills = append(fills, withRows(rapid.IntRange(1, 4).Draw(rt, "tail-rows")))
+				rounds = append(rounds, fills[len(fills)-1])
+			} else {
+				fills = append(fills, nil)
+			}
+			call := 0
+			q.OnInput = func(ctx context.Context) error {
+				f := fills[min(call, len(fills)-1)]
+				call++
+				for i, c := range input {
+					c.col.Column().Reset()
+					if f != nil {
+						c.col.AppendBulk(f[i].rows)
+					}
+				}
+				if call >= len(fills) {
+					return io.EOF
+				}
+				return nil
+			}
+		}
 		withResult = rapid.Bool().Draw(rt, "result-bound")
 		if withResult {
 			q.Result = proto.Results{}
@@ -174,8 +223,14 @@ func runC02(rt *rapid.T, st *stats.Collector) {
 			want = append(want, "Data")
 		}
 		want = append(want, "Data") // end of external data
-		if len(input) > 0 {
+		if len(input) > 0 && !streamed {
 			want = append(want, "Data", "Data") // input block, end of input
+		}
+		if streamed {
+			for range rounds {
+				want = append(want, "Data")
+			}
+			want = append(want, "Data") // end of input, also when no block at all was sent
 		}
 		if strings.Join(kinds, " ") != strings.Join(want, " ") {
 			rt.Fatalf("packet sequence [%s], want [%s]", strings.Join(kinds, " "), strings.Join(want, " "))
@@ -277,19 +332,29 @@ func runC02(rt *rapid.T, st *stats.Collector) {
 		}
 		checkBlock(data[idx], "", nil, "end of external data")
 		idx++
-		if len(input) > 0 {
+		if len(input) > 0 && !streamed {
 			checkBlock(data[idx], "", modelBlock(input), "input block")
 			idx++
+			checkBlock(data[idx], "", nil, "end of input")
+		}
+		if streamed {
+			for i, r := range rounds {
+				checkBlock(data[idx], "", modelBlock(r), fmt.Sprintf("streamed input block %d of %d", i+1, len(rounds)))
+				idx++
+			}
 			checkBlock(data[idx], "", nil, "end of input")
 		}
 	})
 	nt := len(input) > 0 || len(ext) > 0 || (len(opt.Settings)+len(q.Settings) >= 2 && len(q.Parameters) > 0)
 	st.Case(stats.Hash("c02", string(e.conn.WrittenBytes())), nt, func() any {
 		return map[string]any{"kind": "query", "client_rev": clientRev, "server_rev": serverRev, "compression": comp.Name, "body_len": len(q.Body),
-			"settings": len(opt.Settings) + len(q.Settings), "params": len(q.Parameters), "external": typeList(ext), "input": typeList(input), "result_bound": withResult, "span": span.IsValid()}
+			"settings": len(opt.Settings) + len(q.Settings), "params": len(q.Parameters), "external": typeList(ext), "input": typeList(input), "streamed_input_blocks": len(rounds), "result_bound": withResult, "span": span.IsValid()}
 	})
 	st.Label("comp:" + comp.Name)
 	st.Label(fmt.Sprintf("N:%d", N))
+	if streamed {
+		st.Label(fmt.Sprintf("streamed-input-blocks:%d", len(rounds)))
+	}
 }
 
 func typeList(cols []inputCol) []string {
